@@ -5,8 +5,8 @@ package main
 // pieces).  Three ways of obtaining the receiving Conn:
 //   newconn  : uacp.NewConn(tcp, ack)                        (rbuf = ack.ReceiveBufSize, any value)
 //   listener : uacp.Listen(ctx, url, ack) + Accept            (server side after a real HEL/ACK; rbuf >= 32)
-//   dialer   : uacp.Dialer.Dial against a raw TCP peer whose ACK announces ReceiveBufSize = rbuf
-//              (client side after a real HEL/ACK: the client adopts the server's Acknowledge)
+//   dialer   : uacp.Dialer{ClientACK{ReceiveBufSize: rbuf}}.Dial against a raw TCP peer that answers the HEL with an ACK
+//              (client side after a real HEL/ACK; rbuf >= 28 so that the ACK itself fits)
 
 import (
 	"bufio"
@@ -193,7 +193,7 @@ func pair(via string, rbuf uint32) (*uacp.Conn, *net.TCPConn, error) {
 			}
 			w.SetReadDeadline(time.Time{})
 			ack := make([]byte, 20)
-			binary.LittleEndian.PutUint32(ack[4:], rbuf)
+			binary.LittleEndian.PutUint32(ack[4:], 65535)
 			binary.LittleEndian.PutUint32(ack[8:], 65535)
 			if _, err := w.Write(mkFrame("ACK", 'F', ack)); err != nil {
 				ch <- acc{nil, err}
@@ -201,14 +201,14 @@ func pair(via string, rbuf uint32) (*uacp.Conn, *net.TCPConn, error) {
 			}
 			ch <- acc{w.(*net.TCPConn), nil}
 		}()
-		d := &uacp.Dialer{}
+		d := &uacp.Dialer{ClientACK: &uacp.Acknowledge{ReceiveBufSize: rbuf, SendBufSize: 65535}}
 		c, err := d.Dial(ctx, "opc.tcp://"+ln.Addr().String())
 		a := <-ch
 		if err == nil {
 			err = a.err
 		}
 		if err == nil && c.ReceiveBufSize() != rbuf {
-			err = fmt.Errorf("client did not adopt the acknowledged receive buffer size: %d != %d", c.ReceiveBufSize(), rbuf)
+			err = fmt.Errorf("client does not use the receive buffer size it was configured with: %d != %d", c.ReceiveBufSize(), rbuf)
 		}
 		return c, a.w, err
 	}
@@ -424,14 +424,17 @@ func genC05(r *rng.R, id int) *c05case {
 	rb := r.Pick(8, 8, 9, 12, 16, 24, 32, 33, 64, 100, 255, 256, 1000, 4096, 8192, 65535, r.Range(8, 300), r.Range(8, 300))
 	if id%37 == 36 {
 		rb = r.Pick(0, 1, 4, 7) // outside the property's domain (C13): validates the model's Panic branch only
-		cs.Via = []string{"newconn", "dialer"}[r.Intn(2)]
+		cs.Via = "newconn"
+	}
+	if cs.Via == "dialer" && rb < 28 {
+		rb = r.Pick(28, 29, 32, 40)
 	}
 	if cs.Via == "listener" && rb < 32 {
 		rb = r.Pick(32, 33, 40, 64)
 	}
 	if rb >= 4096 && id%5 != 0 {
 		rb = r.Range(8, 300) // keep most cases small; the large buffers appear in a fifth of their draws
-		if cs.Via == "listener" && rb < 32 {
+		if (cs.Via == "listener" || cs.Via == "dialer") && rb < 32 {
 			rb = 32 + rb
 		}
 	}
